@@ -17,7 +17,7 @@ PROP = {
         "the package __init__ files are replaced by empty shells (aiohttp/yarl/requests are not installed); fail_safe.py, traffic_filter.py, configuration.py, helpers.py, hooks/const.py, hooks/hook.py, hooks/helpers.py and hooks/requests.py run unchanged; _load_fail_safe and _build_traffic_filter_from_env_vars are extracted from the package __init__.py and executed, so the configuration path environment -> FailSafeConfig -> FailSafe is the package's own",
         "the clock is the module attribute `time` of fail_safe.py (plus time.time/monotonic while interceptor code runs), instants are multiples of 0.125 s; at now - trip == cool-down exactly both answers are accepted",
         "exceptions used as 'not from the gateway' are ValueError, RuntimeError, KeyError, a custom Exception and a custom BaseException; time-outs and OS-level connection errors are not used in that role because the statement does not say on which side they fall",
-        "only the requests hook is driven; the aiohttp and tornado hooks use the same FailSafe/TrafficFilter objects but are not executed (libraries absent)",
+        "only the requests hook is driven; the aiohttp and tornado hooks use the same FailSafe/TrafficFilter objects but are not executed (libraries absent) - their share in the common FailSafe, one handle_on() registration each, is reproduced by the breaker unit (1-3 registrations in set_hooks() order, failures of any registered type)",
         "resolver = socket.gethostbyname replaced by a generated table; names that CPython's gethostbyname rejects while encoding its argument (IDNA) are passed to the real function, which fails before any lookup; no network access is possible (getaddrinfo & co. are guarded)",
         "per-request override header x-lunar-allow and explicitly allow-listed private addresses (README example) are treated as operator decisions outside the statement: only 'never raises' is checked for them",
         "completeness of the filter (public IPv4 destination, valid lists => forwarded) follows the package README, not the statement",
